@@ -359,6 +359,25 @@ def c16_trans_with_modifier_as_second_argument():
     return o[0] == "config-error", o
 
 
+@demo
+def c16_nested_custom_form_called_with_wrong_arity():
+    o = _outcome(lambda: _write(_BASE + "[Pair]\nA-B : f 1.0\n[Potential-Form]\ng(r, a) = a*r\nf(r, a) = g(r, a, 2.0)\n"))
+    return o[0] == "config-error", o
+
+
+@demo
+def c16_formula_parameter_named_like_another_form():
+    o = _outcome(lambda: _write(_BASE + "[Pair]\nA-B : f 1.0\n[Potential-Form]\ng(r, a) = a*r\nf(r, g) = g*r\n"))
+    return o[0] == "config-error", o
+
+
+@demo
+def c16_formula_names_clashing_with_exprtk_constants():
+    a = _outcome(lambda: _write(_BASE + "[Pair]\nA-B : f 1.0\n[Potential-Form]\nf(r, pi) = pi*r\n"))
+    b = _outcome(lambda: _write(_BASE + "[Pair]\nA-B : f 1.0\n[Potential-Form]\npi(r, a) = a*r\nf(r, a) = a*r\n"))
+    return a[0] == "config-error" and b[0] == "config-error", (a, b)
+
+
 if __name__ == "__main__":
     want = sys.argv[1:]
     nbad = 0
